@@ -37,6 +37,10 @@ Section SN.
     let k := Z.min (snd x) (snd y) in s_align x k <? s_align y k.
   Fixpoint s_pow (x : sn) (n : nat) : sn :=
     match n with O => (1, 0) | S m => s_mul x (s_pow x m) end.
+  (* power table [x^0; x^1; ...; x^n] by repeated multiplication *)
+  Fixpoint s_pows_from (x acc : sn) (n : nat) : list sn :=
+    match n with O => [acc] | S k => acc :: s_pows_from x (s_mul x acc) k end.
+  Definition s_pows (x : sn) (n : nat) : list sn := s_pows_from x (1, 0) n.
   Fixpoint s_sum (l : list sn) : sn :=
     match l with [] => (0, 0) | x :: r => s_add x (s_sum r) end.
   Fixpoint s_dot (a c : list sn) : sn :=
@@ -69,14 +73,14 @@ Section Checkers.
 
   (* triangle rule: every monomial of degree <= d integrated to  a! b! / (a+b+2)!  within tn/td;
      weights > 0; points in the closed reference triangle *)
-  Definition tri_mono_ok (pts : list (sn * sn)) (ws : list sn) (tn td : Z) (ij : nat * nat) : bool :=
-    s_close_frac b (s_dot b ws (map (fun p => s_mon p ij) pts))
+  Definition tri_mono_ok (tab : list (list sn * list sn)) (ws : list sn) (tn td : Z) (ij : nat * nat) : bool :=
+    s_close_frac b (s_dot b ws (map (fun t => s_mul (nth (fst ij) (fst t) (0, 0)) (nth (snd ij) (snd t) (0, 0))) tab))
                  (zfact (fst ij) * zfact (snd ij)) (zfact (fst ij + snd ij + 2)) tn td.
   Definition in_ref_tri (p : sn * sn) : bool :=
     s_leb b (0, 0) (fst p) && s_leb b (0, 0) (snd p) && s_leb b (s_add b (fst p) (snd p)) (1, 0).
   Definition tri_rule_ok (d : nat) (pts : list (sn * sn)) (ws : list sn) (tn td : Z) : bool :=
     Nat.eqb (length pts) (length ws)
-    && forallb (tri_mono_ok pts ws tn td) (monos d)
+    && (let tab := map (fun p => (s_pows (fst p) d, s_pows (snd p) d)) pts in forallb (tri_mono_ok tab ws tn td) (monos d))
     && forallb (fun w => s_ltb b (0, 0) w) ws
     && forallb in_ref_tri pts.
 
